@@ -80,10 +80,12 @@ Example seq_history :
   = [ROk; RErr; ROk; RErr; RFound [1]; ROk; RErr; RFound [1]].
 Proof. reflexivity. Qed.
 
-(* GetOrLoadClass is NOT one atomic method: it is GetClass; [unlocked: GetPhpFileCache, SetPhpFileCache, parse,
-   AddClass]; GetClass.  Every piece is linearizable (registry_linearizable), yet the whole is not: a second
-   thread can observe "file already marked loaded" while the class is not registered yet — the state in which
-   DefaultClassPathManager.LoadClass gives up with "class not found in file" (KNOWN_FINDINGS autoload-race) *)
+(* BEFORE fix 304abde GetOrLoadClass was GetClass; [unlocked: GetPhpFileCache, SetPhpFileCache, parse, AddClass];
+   GetClass with nothing serialising the middle part.  Every piece is linearizable (registry_linearizable), yet
+   the whole was not: a second thread could observe "file already marked loaded" while the class was not
+   registered yet — the state in which LoadClass gave up with "class not found in file".  This schedule of the
+   piecewise machine shows that window; with the load lock of 304abde (AutoloadModel.v, lk = true) thread 1
+   cannot read the file mark between thread 0's SetPhpFileCache and AddClass. *)
 Example autoload_window_refuted :
   let s := crun (cinit store0 [[CGet KC "P"; CGetFile "P.php"; CSetFile "P.php"; CAdd KC "P" 1; CGet KC "P"];
                                [CGet KC "P"; CGetFile "P.php"; CGet KC "P"]])
